@@ -794,6 +794,67 @@ func main() {
 		}
 	}
 
+	// pass 4: package-level slices / maps handed out by reference (stored into a field, a composite literal or a
+	// variable without cloning): every object built that way shares ONE backing store, so per-object
+	// confinement arguments do not apply to it.
+	var aliases []string
+	isGlobalRef := func(info *types.Info, e ast.Expr) string {
+		var id *ast.Ident
+		switch x := e.(type) {
+		case *ast.Ident:
+			id = x
+		case *ast.SelectorExpr:
+			id = x.Sel
+		default:
+			return ""
+		}
+		v, ok := info.Uses[id].(*types.Var)
+		if !ok || v.Pkg() == nil || v.Parent() != v.Pkg().Scope() {
+			return ""
+		}
+		if !strings.HasPrefix(v.Pkg().Path(), "github.com/renbou/grpcbridge") {
+			return ""
+		}
+		switch v.Type().Underlying().(type) {
+		case *types.Slice, *types.Map:
+			return v.Pkg().Name() + "." + v.Name()
+		}
+		return ""
+	}
+	for _, n := range names {
+		fi := fns[n]
+		if fi.isLit {
+			continue
+		}
+		fd, ok := fi.decl.(*ast.FuncDecl)
+		if !ok {
+			continue
+		}
+		info := fi.pkg.TypesInfo
+		ast.Inspect(fd.Body, func(nd ast.Node) bool {
+			switch x := nd.(type) {
+			case *ast.KeyValueExpr:
+				if g := isGlobalRef(info, x.Value); g != "" {
+					aliases = append(aliases, g+" -> composite literal in "+n)
+				}
+			case *ast.AssignStmt:
+				for _, r := range x.Rhs {
+					if g := isGlobalRef(info, r); g != "" {
+						aliases = append(aliases, g+" -> assignment in "+n)
+					}
+				}
+			case *ast.ReturnStmt:
+				for _, r := range x.Results {
+					if g := isGlobalRef(info, r); g != "" {
+						aliases = append(aliases, g+" -> returned by "+n)
+					}
+				}
+			}
+			return true
+		})
+	}
+	sort.Strings(aliases)
+
 	var sb strings.Builder
 	sb.WriteString("/- REGENERATED on every run by /verif/extract/lockset from the grpcbridge sources. Do not edit. -/\n")
 	sb.WriteString("namespace GB.Generated\n\n")
@@ -830,6 +891,8 @@ func main() {
 	sort.Strings(im)
 	sb.WriteString("/-- plain fields never written after publication (immutable once shared) -/\n")
 	sb.WriteString("def immutableFields : List String := " + leanStrs(im) + "\n\n")
+	sb.WriteString("/-- package-level slices/maps handed out by reference (shared backing store between objects) -/\n")
+	sb.WriteString("def globalAliases : List String := " + leanStrs(aliases) + "\n\n")
 	sb.WriteString("end GB.Generated\n")
 	if *out != "" {
 		old, _ := os.ReadFile(*out)
